@@ -5,6 +5,11 @@ From Verif.proofs Require Import GenValProofs.
 Import ListNotations.
 Open Scope N_scope.
 
+Tactic Notation "inv_bind" hyp(H) "as" simple_intropattern(p) "eq" ident(E) :=
+  match type of H with
+  | bind ?x _ = Ok _ => destruct x as [p|] eqn:E; [cbn [bind] in H | discriminate H]
+  end.
+
 Lemma afind_map_parts : forall (f : N -> acct) parts p d,
   afind p (map (fun a => (a, f a)) parts) = Some d -> d = f p.
 Proof.
@@ -96,7 +101,7 @@ Proof.
   { unfold validate_for_payouts. cbn [Ev e_P e_generate negb]. rewrite Ffees, Fb, Gb.
     subst hF. unfold fin_hdr, finish_block. cbn [b_hdr ub_hdr ub_final].
     destruct (p_payouts P) eqn:Epay; cbn [negb orb].
-    - destruct G as [_ Gon _ _ _]. destruct (Gon eq_refl) as [Gfee Gpo]. rewrite Gfee, N.eqb_refl. cbn [negb].
+    - destruct G as [_ Gon _ _ _]. destruct (Gon Epay) as [Gfee Gpo]. rewrite Gfee, N.eqb_refl. cbn [negb].
       rewrite Gpo. cbn [bind].
       destruct (afind proposer (map (fun a => (a, lookup L [ev_top ev] a)) parts)) as [d|] eqn:Ef.
       + apply afind_map_parts in Ef. subst d.
@@ -113,7 +118,174 @@ Proof.
       + cbn [negb set_payout set_proposer h_payout h_proposer].
         replace (h_payout hdr2 <? 0) with false by (symmetry; apply N.ltb_ge; lia).
         destruct (proposer =? 0) eqn:Ep; [apply N.eqb_eq in Ep; exfalso; apply (Hprop eq_refl Ep)|]. reflexivity.
-    - destruct G as [_ _ Goff _ _]. destruct (Goff eq_refl) as [Gfee Gpo]. rewrite Gfee, Hf0.
+    - destruct G as [_ _ Goff _ _]. destruct (Goff Epay) as [Gfee Gpo]. rewrite Gfee, Hf0.
       cbn [set_payout h_proposer h_payout N.eqb negb]. rewrite Gp, Hp0. reflexivity. }
   rewrite HV. reflexivity.
+Qed.
+
+(* ------------------------------------------------------------------ generate_validates *)
+(* everything eval_generate establishes, in one place *)
+Lemma generate_inv : forall P L r b pool parts ub,
+  eval_generate P L r b pool parts = Ok ub ->
+  let hdr1 := set_start (hdr_template r b) (if p_genhash P then lv_genhash L else 0) (lv_nextrs L) in
+  let l0 := put layer0 (lv_pool L) (base_lookup L (lv_pool L)) in
+  let ev := gen_groups (Eg P r) L (mkEv l0 [] 0) pool in
+  start (Eg P r) L (hdr_template r b) = Ok (hdr1, l0) /\
+  gen_fields P L hdr1 ev (ub_hdr ub) /\
+  ub_payset ub = ev_payset ev /\ ub_delta ub = ev_top ev /\
+  ub_final ub = map (fun a => (a, lookup L [ev_top ev] a)) parts.
+Proof.
+  intros P L r b pool parts ub H hdr1 l0 ev. unfold eval_generate in H. fold (Eg P r) in H.
+  inv_bind H as [h1 l0']. destruct (start_gen _ _ _ _ _ _ Hb) as (Eh & El & _). subst h1 l0'.
+  fold hdr1 l0 ev in H, Hb. inv_bind H as [hdr2 top].
+  assert (Hp0 : h_proposer hdr1 = 0) by reflexivity.
+  destruct (eob_gen _ _ _ _ _ _ _ Hp0 Hb0) as [Et G]. subst top.
+  injection H as <-. cbn [ub_hdr ub_payset ub_delta ub_final]. auto.
+Qed.
+
+Theorem generate_validates_eq : forall P L r b pool parts proposer elig ub,
+  p_applydata P = true ->
+  (p_payouts P = true -> proposer <> 0) ->
+  eval_generate P L r b pool parts = Ok ub ->
+  let blk := finish_block P ub proposer elig in
+  eval_validate P L blk = finish_delta P L (b_hdr blk) (ub_delta ub).
+Proof.
+  intros P L r b pool parts proposer elig ub HA Hprop H blk.
+  destruct (generate_inv _ _ _ _ _ _ _ H) as (Hst & G & Eps & Ed & Ef).
+  set (hdr1 := set_start (hdr_template r b) (if p_genhash P then lv_genhash L else 0) (lv_nextrs L)) in *.
+  set (l0 := put layer0 (lv_pool L) (base_lookup L (lv_pool L))) in *.
+  set (ev := gen_groups (Eg P r) L (mkEv l0 [] 0) pool) in *.
+  destruct ub as [hdr2 ps top finals]. cbn [ub_hdr ub_payset ub_delta ub_final] in *. subst ps top finals.
+  destruct (gen_fields_proj _ _ _ _ _ G) as (Gr & Gb & Gp & Gg & Gs & Groot & Gcnt).
+  subst blk. unfold eval_validate, eval_block. rewrite fin_hdr_b.
+  set (hF := fin_hdr P hdr2 (map (fun a => (a, lookup L [ev_top ev] a)) parts) proposer elig).
+  destruct (fin_hdr_same P hdr2 (map (fun a => (a, lookup L [ev_top ev] a)) parts) proposer elig)
+    as (Fr & Fb & Fg & Fs & Froot & Fcnt & Ffees & Fload). fold hF in Fr, Fb, Fg, Fs, Froot, Fcnt, Ffees, Fload.
+  assert (Hr : h_round hF = r) by (rewrite Fr, Gr; reflexivity).
+  rewrite Hr. fold (Ev P r).
+  destruct (start_gen _ _ _ _ _ _ Hst) as (_ & _ & Hsv).
+  rewrite (Hsv hF); cbn [bind].
+  2: exact Hr.
+  2: rewrite Fb, Gb; reflexivity.
+  2: rewrite Fg, Gg; reflexivity.
+  2: rewrite Fs, Gs; reflexivity.
+  2:{ intro El. rewrite Fload. destruct G as [_ _ _ _ Goff]. rewrite (Goff El). reflexivity. }
+  cbn [finish_block b_payset ub_payset].
+  destruct (gen_run P r L pool (mkEv l0 [] 0) HA) as (gs & Hps & Hrun). cbn [ev_payset app] in Hps.
+  fold ev in Hps, Hrun. rewrite Hps, Hrun. cbn [bind].
+  assert (Hp0 : h_proposer hdr1 = 0) by reflexivity.
+  assert (Hf0 : h_fees hdr1 = 0) by reflexivity.
+  assert (Hpo0 : h_payout hdr1 = 0) by reflexivity.
+  pose proof (eob_val_fin P r L hdr1 ev hdr2 parts proposer elig Hprop Hp0 Hf0 Hpo0 G) as HE.
+  cbv zeta in HE. fold hF in HE. rewrite HE.
+  unfold finish_delta.
+  destruct (perform_payout P L hF (ev_top ev)) as [top1|e]; cbn [bind]; [|reflexivity].
+  replace (if true && p_loadtracking P then _ else _) with (@Ok unit tt); [reflexivity|].
+  cbn [andb]. destruct (p_loadtracking P) eqn:El; [|reflexivity].
+  destruct G as [_ _ _ Gon _]. rewrite (Gon El). cbn [bind]. rewrite Fload, N.eqb_refl. reflexivity.
+Qed.
+
+(* ------------------------------------------------------------------ validate_unique *)
+Lemma eob_val_inv : forall P r L h ev h2 top,
+  end_of_block (Ev P r) L h ev = Ok (h2, top) ->
+  h2 = h /\ h_root h = payset_commit (ev_payset ev) /\
+  h_counter h = (if p_txncounter P then counter L (ev_top ev) else 0) /\
+  validate_for_payouts (Ev P r) L h (ev_top ev) = Ok tt.
+Proof.
+  intros P r L h ev h2 top H. unfold end_of_block in H. cbn [Ev e_P e_generate e_validate bind] in H.
+  inv_bind H as []. inv_bind H as top1. injection H as <- _.
+  destruct (root_eqb (payset_commit (ev_payset ev)) (h_root h)) eqn:E1; [|discriminate]. apply root_eqb_eq in E1.
+  cbn [negb] in Hb.
+  destruct (h_counter h =? (if p_txncounter P then counter L (ev_top ev) else 0)) eqn:E2; [|discriminate]. apply N.eqb_eq in E2.
+  cbn [negb] in Hb. auto.
+Qed.
+
+Lemma vfp_inv : forall P r L h top,
+  validate_for_payouts (Ev P r) L h top = Ok tt ->
+  (p_payouts P = false -> h_fees h = 0 /\ h_payout h = 0) /\
+  (p_payouts P = true -> h_fees h = l_fees top /\
+     exists expected, proposer_payout P L top (h_fees h) (h_bonus h) = Ok expected /\ h_payout h <= expected).
+Proof.
+  intros P r L h top H. unfold validate_for_payouts in H. cbn [Ev e_P e_generate] in H.
+  destruct (p_payouts P); cbn [negb] in H; split; intro E; try discriminate E.
+  - destruct (h_fees h =? l_fees top) eqn:E1; [|discriminate]. apply N.eqb_eq in E1. cbn [negb] in H.
+    inv_bind H as expected. split; [assumption|]. exists expected. split; [reflexivity|].
+    destruct (expected <? h_payout h) eqn:E2; [discriminate|]. apply N.ltb_ge in E2. exact E2.
+  - destruct (h_fees h =? 0) eqn:E1; [|discriminate]. apply N.eqb_eq in E1. cbn [negb] in H.
+    destruct (negb (h_proposer h =? 0)); [discriminate|].
+    destruct (h_payout h =? 0) eqn:E2; [|discriminate]. apply N.eqb_eq in E2. auto.
+Qed.
+
+Theorem validate_unique : forall P L r b pool parts ub blk' d',
+  p_applydata P = true ->
+  eval_generate P L r b pool parts = Ok ub ->
+  Forall2 same_txns (ub_payset ub) (b_payset blk') ->
+  eval_validate P L blk' = Ok d' ->
+  b_payset blk' = ub_payset ub /\
+  h_round (b_hdr blk') = r /\ h_bonus (b_hdr blk') = b /\
+  h_genhash (b_hdr blk') = h_genhash (ub_hdr ub) /\ h_rs (b_hdr blk') = h_rs (ub_hdr ub) /\
+  h_root (b_hdr blk') = h_root (ub_hdr ub) /\ h_counter (b_hdr blk') = h_counter (ub_hdr ub) /\
+  h_fees (b_hdr blk') = h_fees (ub_hdr ub) /\ h_load (b_hdr blk') = h_load (ub_hdr ub) /\
+  h_payout (b_hdr blk') <= h_payout (ub_hdr ub).
+Proof.
+  intros P L r b pool parts ub [h' ps'] d' HA H HF HV. cbn [b_hdr b_payset] in *.
+  destruct (generate_inv _ _ _ _ _ _ _ H) as (Hst & G & Eps & Ed & Ef).
+  set (hdr1 := set_start (hdr_template r b) (if p_genhash P then lv_genhash L else 0) (lv_nextrs L)) in *.
+  set (l0 := put layer0 (lv_pool L) (base_lookup L (lv_pool L))) in *.
+  set (ev := gen_groups (Eg P r) L (mkEv l0 [] 0) pool) in *.
+  destruct (gen_fields_proj _ _ _ _ _ G) as (Gr & Gb & Gp & Gg & Gs & Groot & Gcnt).
+  (* what the generator's own StartEvaluator established about r and b *)
+  destruct (start_gen _ _ _ _ _ _ Hst) as (_ & _ & Hsv).
+  assert (Hs1 : start (Ev P r) L hdr1 = Ok (hdr1, l0)).
+  { apply Hsv; try reflexivity. }
+  destruct (start_val _ _ _ _ _ _ Hs1) as (_ & _ & Hr1 & Hb1 & _ & Hg1 & Hrs1).
+  cbn in Hr1, Hb1.
+  (* the validator's run *)
+  unfold eval_validate, eval_block in HV. cbn [b_hdr b_payset] in HV.
+  inv_bind HV as [h1' l0'] eq Hst'. destruct (start_val _ _ _ _ _ _ Hst') as (-> & -> & Hr' & Hb' & Hl' & Hg' & Hrs').
+  assert (Er : h_round h' = r) by (rewrite Hr', Hr1; reflexivity).
+  rewrite Er in HV. fold (Ev P r) in HV. fold l0 in HV.
+  inv_bind HV as ev' eq Hrun'. inv_bind HV as [h2 top] eq Heob. inv_bind HV as [] eq Hld.
+  destruct (gen_run P r L pool (mkEv l0 [] 0) HA) as (gs & Hps & Hrun). cbn [ev_payset app] in Hps. fold ev in Hps, Hrun.
+  rewrite Eps, Hps in HF.
+  assert (Egs : gs = ps') by (eapply run_val_unique; eauto). subst ps'.
+  rewrite Hrun in Hrun'. injection Hrun' as <-.
+  destruct (eob_val_inv _ _ _ _ _ _ _ Heob) as (-> & Hroot & Hcnt & Hvfp).
+  destruct (vfp_inv _ _ _ _ _ Hvfp) as [Voff Von].
+  split; [rewrite Eps, Hps; reflexivity|].
+  split; [exact Er|]. split; [rewrite Hb', Hb1; reflexivity|].
+  split; [rewrite Gg, Hg'; reflexivity|]. split; [rewrite Gs, Hrs'; reflexivity|].
+  split; [rewrite Groot; exact Hroot|]. split; [rewrite Gcnt; exact Hcnt|].
+  assert (Hload : h_load h' = h_load (ub_hdr ub)).
+  { cbn [andb] in Hld. destruct (p_loadtracking P) eqn:El.
+    - inv_bind Hld as load eq Hcl. apply guard_ok in Hld. apply N.eqb_eq in Hld.
+      destruct G as [_ _ _ Gon _]. rewrite (Gon El) in Hcl. injection Hcl as <-. exact Hld.
+    - destruct G as [_ _ _ _ Goff]. rewrite (Goff El), (Hl' eq_refl). reflexivity. }
+  destruct (p_payouts P) eqn:Epay.
+  - destruct (Von eq_refl) as (Hfee & expected & Hexp & Hle).
+    destruct G as [_ Gon _ _ _]. destruct (Gon Epay) as [Gfee Gpo].
+    rewrite Hfee, Hb', <- Hb1 in Hexp. change (h_bonus hdr1) with b in Gpo. rewrite Gpo in Hexp. injection Hexp as <-.
+    split; [rewrite Gfee; exact Hfee|]. split; [exact Hload|exact Hle].
+  - destruct (Voff eq_refl) as [Hfee Hpo].
+    destruct G as [_ _ Goff _ _]. destruct (Goff Epay) as [Gfee Gpo].
+    split; [rewrite Gfee, Hfee; reflexivity|]. split; [exact Hload|]. rewrite Hpo. lia.
+Qed.
+
+(* the contrapositive, as the brief words it: a block over the same transactions in which a
+   generate-computed field deviates is rejected *)
+Corollary validate_rejects_deviation : forall P L r b pool parts ub blk',
+  p_applydata P = true ->
+  eval_generate P L r b pool parts = Ok ub ->
+  Forall2 same_txns (ub_payset ub) (b_payset blk') ->
+  (b_payset blk' <> ub_payset ub \/                         (* some ApplyData differs *)
+   h_genhash (b_hdr blk') <> h_genhash (ub_hdr ub) \/ h_rs (b_hdr blk') <> h_rs (ub_hdr ub) \/
+   h_root (b_hdr blk') <> h_root (ub_hdr ub) \/ h_counter (b_hdr blk') <> h_counter (ub_hdr ub) \/
+   h_fees (b_hdr blk') <> h_fees (ub_hdr ub) \/ h_load (b_hdr blk') <> h_load (ub_hdr ub) \/
+   h_payout (ub_hdr ub) < h_payout (b_hdr blk')) ->
+  exists e, eval_validate P L blk' = Err e.
+Proof.
+  intros P L r b pool parts ub blk' HA H HF Hdev.
+  destruct (eval_validate P L blk') as [d'|e] eqn:HV; [|exists e; reflexivity]. exfalso.
+  destruct (validate_unique _ _ _ _ _ _ _ _ _ HA H HF HV) as (U1 & _ & _ & U2 & U3 & U4 & U5 & U6 & U7 & U8).
+  destruct Hdev as [D|[D|[D|[D|[D|[D|[D|D]]]]]]]; try (apply D; assumption). lia.
 Qed.
